@@ -6,8 +6,8 @@
 (*   op {op: "obs", len, front, range, n, prange}   Len, Front, a complete   *)
 (*                             Range and a Range stopped at the n-th value,  *)
 (*                             taken together after a mutation               *)
-(* Values are positive numbers (the harness appends pointers to distinct     *)
-(* numbers and records the number, 0 for nil).  Deterministic monitor.       *)
+(* Values: the harness appends pointers to numbers (some of them 0) and nil  *)
+(* pointers; it records the number pointed to, -1 for nil.  Deterministic.   *)
 EXTENDS BufRing, TraceLib
 
 Trace == LoadTrace("trace.ndjson")
